@@ -267,10 +267,62 @@ def reduction_shard(kind, conn, nio, dt, sign, redname):
     return tally
 
 
+def multicell_shard(kind, sign, T):
+    """one trainer, TWO cells (two layers) with different histories; for the three-factor rules a per-sample signal TENSOR
+    (batch of one) with scale != 1: every cell's update equals its own single-cell reference"""
+    tally = Tally()
+    spec = Cellspec("dense", 1, 1)
+    dt = 1.0
+    hs = all_histories(T, 2)
+    three = kind in ("mstdp", "mstdpet")
+    gamma = 0.5
+    for h in hs:
+        hists = [h, [tuple(1 - v for v in letter) for letter in h][::-1]]
+        case = {"trainer": kind, "sign": sign, "part": "two cells on one trainer", "histories": hists, "signal": "tensor" if three else None, "scale": gamma}
+        tally.add("evaluations")
+        layers = [spec.build(dt, 1) for _ in range(2)]
+        tr = make_trainer(kind, sign, "cumulative", False, None)
+        for i, L_ in enumerate(layers):
+            tr.register_cell(f"c{i}", L_.cell)
+        sigs = [torch.tensor([(-0.5 if u % 2 else 1.0)]) for u in range(T)]
+        ok = True
+        for t in range(T):
+            for i, L_ in enumerate(layers):
+                L_(spec.pre_tensor([hists[i][t][:1]]), neuron_kwargs={"override": spec.post_tensor([hists[i][t][1:]])})
+            try:
+                if three:
+                    tr(sigs[t], gamma)
+                else:
+                    tr()
+            except Exception as ex:
+                tally.violation(f"exception:multicell:{kind}:{type(ex).__name__}", {**case, "step": t}, repr(ex))
+                break
+            for i, L_ in enumerate(layers):
+                pre_syn = torch.stack([spec.pre_syn([hists[i][u][:1]]) for u in range(t + 1)], 0)
+                post = torch.stack([spec.post_ref([hists[i][u][1:]]) for u in range(t + 1)], 0)
+                rp, rn = reference(kind, sign, "cumulative", dt, pre_syn, post, spec.delays_to_K(None, dt), torch.stack(sigs[: t + 1], 0), gamma)
+                acc = L_.connection.updater.weight
+                z = torch.zeros(spec.wshape, dtype=F64)
+                got = (z if acc.pos is None else acc.pos.to(F64)) - (z if acc.neg is None else acc.neg.to(F64))
+                exp = (rp + rn).sum(0)[0]
+                if not torch.allclose(got, exp, atol=1e-5):
+                    tally.violation(f"multicell:{kind}:cell{i}", {**case, "step": t, "cell": i}, f"cell {i} accumulated {got.reshape(-1).tolist()} but its own history gives "
+                                    f"{exp.reshape(-1).tolist()}", exp.tolist(), got.tolist())
+                    ok = False
+            if not ok:
+                break
+        tally.mark("nontrivial", ("multicell", kind, sign, tuple(map(tuple, h))))
+    tally.sample({"part": "multicell", "trainer": kind, "sign": sign, "T": T})
+    return tally
+
+
 def run(rep):
     quick = rep.tier == "quick"
     jobs = []
     T1 = 4 if quick else 6
+    for kind in ("stdp", "mstdp", "mstdpet", "triplet"):
+        for sign in ("hebbian", "dep"):
+            jobs.append((multicell_shard, (kind, sign, 3 if quick else 4)))
     T2 = 2 if quick else 3
     for kind in ("stdp", "mstdp", "mstdpet", "triplet"):
         for sign in SIGNS:
